@@ -157,11 +157,18 @@ class Detached:
         return [x for x in out if alive(x)]
 
     def connect(self, timeout: float = 60.0) -> Any:
+        """Must be called from the main thread (Compiler installs a signal
+        handler). Compiler itself retries for about a minute."""
         from bqskit.compiler.compiler import Compiler
-        c = Call(Compiler, 'localhost', self.port)
-        if not c.wait(timeout) or c.outcome != 'value':
-            raise RuntimeError('could not connect to detached server: %s' % exc_text(c.exc))
-        return c.value
+        last: Exception | None = None
+        t0 = time.monotonic()
+        while time.monotonic() - t0 < timeout:
+            try:
+                return Compiler('localhost', self.port)
+            except RuntimeError as e:
+                last = e
+                time.sleep(0.5)
+        raise RuntimeError('could not connect to detached server: %s' % exc_text(last))
 
     def wait_exit(self, timeout: float) -> list[int]:
         """Wait for every runtime process to exit; returns survivors."""
